@@ -333,7 +333,7 @@ func (pConn *PFCPConn) handleSessionModificationRequest(msg message.Message) (me
 
 		p.fseidIP = fseidIP
 
-		err = session.UpdatePDR(p)
+		err = session.UpdatePDR(&p)
 		if err != nil {
 			logger.PfcpLog.Errorln("session PDR update failed", err)
 			continue
